@@ -4,10 +4,11 @@ from fractions import Fraction
 import numpy as np
 import vlib
 from vlib import zl, ql, zlit, qlit
+import c14_hist
 
 HEADER = '''From Coq Require Import String Ascii.
 From Coq Require Import ZArith QArith Qabs List Bool.
-From Pymoto Require Import Base.Num Base.Cmp Model.Grid Model.Overhang.
+From Pymoto Require Import Base.Num Base.Cmp Model.Grid Model.Overhang Model.OverhangHist.
 Import ListNotations.
 Open Scope Z_scope.
 Definition G (a b c : Z) := {| nelx := a; nely := b; nelz := c |}.
@@ -30,6 +31,20 @@ Definition resp_check (g : grid) (a : dir_arg) (ns : option Z) (p : nat) (k eps 
   match prepare (dim g) a ns with
   | Ok (d, n) => Ql_close (tol * scale)%Q (response_Q g d n p k eps x) out
   | Err _ => false
+  end.
+(* a call history (Model/OverhangHist.v) executed on the model with memory: instances built by _prepare on ONE grid,
+   EVERY observed response (instance, scale, output state) compared in call order *)
+Fixpoint obs_all (tl : Q) (m : list (nat * list Q)) (o : list (nat * Q * list Q)) : bool :=
+  match m, o with
+  | [], [] => true
+  | (j, y) :: m', (j', sc, out) :: o' => Nat.eqb j j' && Ql_close (tl * sc)%Q y out && obs_all tl m' o'
+  | _, _ => false
+  end.
+Definition hist_check (g : grid) (cfgs : list (option (config Q))) (sigs : list (list Q)) (h : list (event Q))
+           (obs : list (nat * Q * list Q)) : bool :=
+  match all_some cfgs with
+  | Some cs => obs_all tol (run_Q g cs sigs h) obs
+  | None => false
   end.
 '''
 
@@ -106,8 +121,16 @@ def run(ctx):
                 '(b) _response on rational instances (integer p, xi_0 = n^(-1/k), eps in {0, 1/64, 1e-4}): grids up to 5x5(x4), '
                 'all 4/6 directions in string and vector spelling, nsampling 3/5/9, outputs compared with the exact Q model, '
                 '1e-9 relative; non-trivial = >= 2 layers in print direction and a non-constant field; distinct by '
-                '(grid, direction, spelling, nsampling, instance, eps, field); (c) set_parameters q/shift/backshift by Interval goals')
-    ctx.assumptions += ['1-D domains (nely = 0) and non-float64 inputs are outside the property and not generated',
+                '(grid, direction, spelling, nsampling, instance, eps, field); (c) set_parameters q/shift/backshift by Interval goals; '
+                '(d) call histories, the same deterministic scenario set on every seed (values drawn from the seed): A. one instance '
+                'per print direction (>= 3 layers) through response / in-place overwrite / single entry written / x[i] += h / seed + '
+                'sensitivity() + reset() / fresh array / repeated response; B. all 4 (2-D) or 6 (3-D) directions as instances with '
+                'different nsampling and parameters on ONE domain object and two signals, evaluated in interleaved and permuted orders; '
+                'C. 3-D domains with one or more size-1 axes: all 6 directions x nsampling {default,5,9} as 18 instances on one domain '
+                'and one signal; D. random histories.  The event list and EVERY observed response go into the case file; Coq runs the '
+                'model with memory (Model/OverhangHist.v run_Q) and compares all responses (1e-9); distinct by the whole history')
+    ctx.assumptions += ['call histories: input signals hold float64 arrays of the domain size; attributes of an instance (p, eps, xi_0, direction, domain) are not re-assigned by the caller after construction (not public API, outside the property)',
+                        '1-D domains (nely = 0) and non-float64 inputs are outside the property and not generated',
                         'theorems about values are over the reals; floats are tied by 1e-9 comparison in exact Q arithmetic',
                         'equivariance theorems assume a permutation-invariant smooth maximum (true for the real sum; in floats up to rounding, validated by the oracle at 1e-9)',
                         'non-axis-aligned direction vectors are outside the property; the model follows the code (accepted, first largest component)']
@@ -117,7 +140,8 @@ def run(ctx):
                     'integers used by the Interval tactic',
                     'the Q instance evaluated in the correspondence (integer powers, integer square root to 2^-64, min) is the same term as the '
                     'R model under two interpretations (not proved equal); shift < 3e-101 and backshift are set to 0 there (below tolerance)',
-                    'modelled rather than verified: numpy meshgrid/fancy-index assignment in _response (validated by correspondence)']
+                    'modelled rather than verified: numpy meshgrid/fancy-index assignment in _response (validated by correspondence)',
+                    'history model (Model/OverhangHist.v) is value-semantic (xprint = x.copy(), self.smax = x.copy()): that no array is shared between the caller and the instance is validated at every call of every history (testing), and the frame (attributes each method writes on self, no class-level attribute, no helper method, no call on instance state) is regenerated from the source and compared by bridge lemma gen_frame_eq']
     vlib.audit(ctx)
     if not vlib.ensure_static(ctx):
         return
@@ -266,6 +290,9 @@ def run(ctx):
                 ns_given = nsamp if (dim == 3 or rng.random() < 0.5) else None
                 sweep_case(ctx, pym, add, (a, b, c), direction, ns_given, p, k, eps, xs, tag='sweep')
 
+    # ---- (d) call histories: several instances on one domain, inputs replaced / written in place, sensitivity calls
+    history_cases(ctx, pym, add)
+
     ctx.exhaustive = True   # the finite string set of the property statement is enumerated completely (both dimensions)
     t_cases = time.time()
     failing, err = vlib.run_cases(ctx, 'c14', HEADER, checks, chunk=150)
@@ -277,7 +304,7 @@ def run(ctx):
     for idx in failing[:20]:
         lab = labels[idx]
         site = 'OverhangFilter._prepare' if lab[0] in ('string', 'string-long', 'vector', 'vector-array', 'corpus-prepare') \
-            else 'OverhangFilter._response'
+            else ('OverhangFilter.response (call history)' if lab[0] == 'history' else 'OverhangFilter._response')
         ctx.violation('correspondence', site, 'model == implementation', str(lab[0]),
                       dict(label=[str(v) for v in lab], coq_check=checks[idx][:6000]),
                       note='Coq model and implementation differ')
@@ -297,6 +324,7 @@ def run(ctx):
     # ---- implementation-side property oracle
     t_or = time.time()
     oracle(ctx, pym, more=(not ctx.quick()) or broken)
+    oracle_histories(ctx, pym, more=(not ctx.quick()) or broken)
     ctx.extra['phase_seconds']['oracle'] = round(time.time() - t_or, 1)
 
 
@@ -643,6 +671,181 @@ def oracle(ctx, pym, more=False):
                                       "string containing '-'" if isinstance(d, str) and '-' in d else 'axis direction',
                                       dict(direction=d if isinstance(d, str) else list(map(float, d)), dim=dom.dim),
                                       expected=exp, got=got)
+
+# ----------------------------------------------------------------------------------------------------------------
+def pick_instance(rng, layers, bits0):
+    """a rational instance (p, k, eps) whose exact Q evaluation stays small: bits ~ bits0 * degree^(layers-1)"""
+    for attempt in range(40):
+        p, k = rng.choice(INSTANCES)
+        eps = rng.choice([Fraction(0), Fraction(0), Fraction(0), Fraction(1, 64), Fraction(float(1e-4))])
+        q = p - k
+        deg = p if q == 1 else (2 * p if q == Fraction(1, 2) else 1)
+        b0 = bits0 if eps == 0 else max(bits0, 64)
+        if b0 * deg ** max(layers - 1, 0) <= 3000:
+            return p, k, eps
+    return 2, Fraction(1), Fraction(0)
+
+
+def history_cases(ctx, pym, add):
+    """(d) every scenario of c14_hist.build_scenarios on rational instances: the event list and every observed response
+    go into the case file; Coq runs the model with memory (run_Q) and compares all responses"""
+    rng = ctx.rng
+    scenarios = c14_hist.build_scenarios(rng, ctx.quick(), big=False)
+    with c14_hist.Patched(pym):
+        for sc in scenarios:
+            a, b, c = sc['grid']
+            dim = 2 if c == 0 else 3
+            inst_q = [pick_instance(rng, c14_hist.nlayers(sc['grid'], ins['axis']), 6) for ins in sc['insts']]
+            binary = rng.random() < 0.25
+
+            def field(nel):
+                if binary:
+                    return [Fraction(rng.choice([0, 1])) for _ in range(nel)]
+                return [Fraction(rng.choice([0, 0, 16, 16] + list(range(17))), 16) for _ in range(nel)]
+            sigs0, events = c14_hist.instantiate(
+                rng, sc, field, lambda: Fraction(rng.randrange(17), 16),
+                lambda v: Fraction(1, 64) if v <= Fraction(1, 2) else Fraction(-1, 64))
+            params = []
+            for ins, (p, k, eps) in zip(sc['insts'], inst_q):
+                n_eff = ins['ns'] if ins['ns'] is not None else (3 if dim == 2 else 5)
+                params.append(dict(xi_0=xi0_of(n_eff, k), p=float(p), eps=float(eps)))
+            label = ('history', sc['tag'], sc['grid'], repr([(i['direction'], i['ns'], i['src']) for i in sc['insts']]),
+                     repr(inst_q), repr(sigs0), repr(events))
+            ctx.count(f'history:{sc["tag"]}')
+            ctx.count('history:instances', len(sc['insts']))
+            for ev in events:
+                ctx.count(f'history-event:{ev[0]}')
+            try:
+                obs, problems, dom = c14_hist.drive(pym, sc, sigs0, events, params)
+                for o in obs:
+                    if o['out'].shape != o['x'].shape or not np.all(np.isfinite(o['out'])):
+                        raise RuntimeError(f'bad output at event {o["pos"]}')
+            except Exception as e:  # noqa
+                ctx.count('history:exception')
+                add(label, 'false', sample=dict(history=sc['tag'], grid=sc['grid'], error=repr(e)[:200]))
+                continue
+            for pred, detail in problems[:3]:
+                ctx.violation('impl-violates', 'OverhangFilter.response (call history)', pred, sc['tag'],
+                              dict(grid=sc['grid'], instances=[dict(i, **q) for i, q in zip(sc['insts'], params)],
+                                   signals=[[float(v) for v in x] for x in sigs0], events=c14_hist.events_json(events), **detail))
+            ctx.search_evaluations += len(obs)
+            G = f'(G {a} {b} {c})'
+            cfgs = '[' + '; '.join(
+                f'cfgQ {G} {ins["src"]} {dir_arg(ins["direction"])} {ns_arg(ins["ns"])} {p}%nat {qlit(k)}%Q {qlit(Fraction(float(eps)))}%Q'
+                for ins, (p, k, eps) in zip(sc['insts'], inst_q)) + ']'
+            obs_terms = []
+            nontrivial = False
+            for o in obs:
+                outq = [Fraction(float(v)) for v in o['out']]
+                scale = max([Fraction(1)] + [abs(v) for v in outq])
+                obs_terms.append(f'({o["j"]}%nat, {qlit(scale)}%Q, {ql(outq)}%Q)')
+                nontrivial = nontrivial or not np.array_equal(o['out'], o['x'])
+            add(label,
+                f'hist_check {G} {cfgs} [{"; ".join(ql(x) + "%Q" for x in sigs0)}] '
+                f'{c14_hist.coq_events(events, sigs0, ql, qlit)} [{"; ".join(obs_terms)}]',
+                nontrivial=nontrivial,
+                sample=dict(history=sc['tag'], grid=sc['grid'], instances=len(sc['insts']), events=[e[0] for e in events][:12],
+                            responses=len(obs)))
+
+
+def spec_flat(grid, x, axis, sign, n, p, xi0, eps):
+    a, b, c = grid
+    x3 = np.asarray(x, dtype=np.float64).reshape((max(c, 1), b, a)).transpose(2, 1, 0)
+    return from3(spec_naive(x3, 2 if c == 0 else 3, axis, sign, n, p, xi0, eps))
+
+
+def oracle_histories(ctx, pym, more=False):
+    """implementation-side oracle on call histories (testing): float parameter sets (defaults and random), larger
+    grids; EVERY response of a history against the naive layer-by-layer scheme of the current input, against a fresh
+    instance (new domain, new signal, new filter), base layer, no overshoot; caller's arrays untouched."""
+    rng = ctx.rng
+    nchecked = 0
+    site = 'OverhangFilter.response (call history)'
+    with c14_hist.Patched(pym):
+        for rnd in range(3 if more else 1):
+            for sc in c14_hist.build_scenarios(rng, not more, big=True):
+                grid = sc['grid']
+                dim = 2 if grid[2] == 0 else 3
+                params = []
+                for j, ins in enumerate(sc['insts']):
+                    if (j + rnd) % 3 == 0:
+                        params.append(dict(xi_0=0.5, p=40.0, eps=1e-4))
+                    else:
+                        params.append(dict(xi_0=rng.choice([0.3, 0.5, 0.6, 0.75]), p=float(rng.randint(12, 60)),
+                                           eps=rng.choice([0.0, 1e-6, 1e-4, 1e-2])))
+                style = rng.randrange(4)
+
+                def field(nel):
+                    if style == 0:
+                        return [rng.random() for _ in range(nel)]
+                    if style == 1:
+                        return [float(rng.random() < 0.6) for _ in range(nel)]
+                    if style == 2:
+                        return [(1.0 if rng.random() < 0.5 else rng.random()) * (rng.random() < 0.8) for _ in range(nel)]
+                    return [round(rng.random() * 4) / 4 for _ in range(nel)]
+                sigs0, events = c14_hist.instantiate(
+                    rng, sc, field, lambda: rng.choice([0.0, 1.0, rng.random()]),
+                    lambda v: 1e-6 if v <= 0.5 else -1e-6)
+                case = dict(grid=grid, instances=[dict(i, **q) for i, q in zip(sc['insts'], params)],
+                            signals=[[float(v) for v in x] for x in sigs0], events=c14_hist.events_json(events))
+                ctx.count(f'oracle-history:{sc["tag"]}')
+                try:
+                    obs, problems, dom = c14_hist.drive(pym, sc, sigs0, events, params)
+                except Exception as e:  # noqa
+                    ctx.search_evaluations += 1
+                    ctx.violation('impl-violates', site, 'history computes', sc['tag'], case, got=repr(e)[:300])
+                    continue
+                for pred, detail in problems[:3]:
+                    ctx.violation('impl-violates', site, pred, sc['tag'], dict(case, **detail))
+                nbad = 0
+                for o in obs:
+                    ctx.search_evaluations += 1
+                    nchecked += 1
+                    if nbad >= 2:
+                        break
+                    ins, par = sc['insts'][o['j']], params[o['j']]
+                    n = ins['ns'] if ins['ns'] is not None else (3 if dim == 2 else 5)
+                    x, y = o['x'], o['out']
+                    where = dict(case, failing_event=o['pos'], instance=o['j'], input_at_call=x.tolist())
+                    if y.shape != x.shape or not np.all(np.isfinite(y)):
+                        nbad += 1
+                        ctx.violation('impl-violates', site, 'response computes', sc['tag'], where, got=repr(y)[:300])
+                        continue
+                    ref = spec_flat(grid, x, ins['axis'], ins['sign'], n, par['p'], par['xi_0'], par['eps'])
+                    tolv = 1e-9 * max(1.0, float(np.abs(ref).max()))
+                    if np.abs(ref - y).max() > tolv:
+                        nbad += 1
+                        ctx.violation('impl-violates', site,
+                                      'every response of a call history equals the layer-by-layer scheme of the CURRENT input',
+                                      sc['tag'], where, expected=ref.tolist(), got=y.tolist())
+                    # an instance built NOW on a fresh signal: alternately on a fresh domain and on the domain object
+                    # the instances of the history share
+                    try:
+                        fm = make_filter(pym, pym.DomainDefinition(*grid) if nchecked % 2 else dom, ins['direction'],
+                                         x=x.copy(), nsampling=ins['ns'], **par)
+                        fm.response()
+                        fresh = np.asarray(fm.sig_out[0].state)
+                    except Exception as e:  # noqa
+                        fresh = None
+                        nbad += 1
+                        ctx.violation('impl-violates', site, 'fresh instance computes', sc['tag'], where, got=repr(e)[:300])
+                    if fresh is not None and not np.array_equal(fresh, y):
+                        nbad += 1
+                        ctx.violation('impl-violates', site, 'a used instance responds like an instance built afresh on the same input',
+                                      sc['tag'], where, expected=fresh.tolist(), got=y.tolist())
+                    # base layer and overshoot with respect to the CURRENT input
+                    x3, y3 = (np.asarray(v).reshape((max(grid[2], 1), grid[1], grid[0])).transpose(2, 1, 0) for v in (x, y))
+                    sl = [slice(None)] * 3
+                    sl[ins['axis']] = 0 if ins['sign'] > 0 else x3.shape[ins['axis']] - 1
+                    if not np.array_equal(y3[tuple(sl)], x3[tuple(sl)]):
+                        nbad += 1
+                        ctx.violation('impl-violates', site, 'base layer equals the current input', sc['tag'], where,
+                                      expected=x3[tuple(sl)].tolist(), got=y3[tuple(sl)].tolist())
+                    if (y - x).max() > math.sqrt(par['eps']) / 2 + 1e-12:
+                        nbad += 1
+                        ctx.violation('impl-violates', site, 'no element exceeds its current input by more than sqrt(eps)/2',
+                                      sc['tag'], where, expected=math.sqrt(par['eps']) / 2, got=float((y - x).max()))
+    ctx.oracle_validation['history model is value-semantic: responses / sensitivity() / reset() leave the caller\'s input arrays untouched and outputs do not alias them (checked at every call of every history)'] = nchecked
 
 
 if __name__ == '__main__':
